@@ -85,6 +85,10 @@ def compress(body, compress_level):
     yield zobj.flush() + struct.pack('<l', crc) + struct.pack('<L', size & 0xFFFFFFFF)
 
 
+def _is_number(s):
+    return s.isascii() and s.isdigit()
+
+
 def get_ranges(headervalue, content_length):
     """
     Return a list of (start, stop) indices from a Range header, or None.
@@ -100,13 +104,25 @@ def get_ranges(headervalue, content_length):
         return None
 
     result = []
-    _bytesunit, byteranges = headervalue.split('=', 1)
+    try:
+        bytesunit, byteranges = headervalue.split('=', 1)
+    except ValueError:
+        # Syntactically invalid: treat as if the header did not exist
+        return None
+    if bytesunit.strip().lower() != 'bytes':
+        # Unknown range unit: ignore the header (rfc 7233 sec 3.1)
+        return None
+
     for brange in byteranges.split(','):
-        start, stop = (x.strip() for x in brange.split('-', 1))
+        try:
+            start, stop = (x.strip() for x in brange.split('-', 1))
+        except ValueError:
+            return None
         if start:
-            if not stop:
-                stop = content_length - 1
-            start, stop = list(map(int, (start, stop)))
+            if not _is_number(start) or (stop and not _is_number(stop)):
+                return None
+            start = int(start)
+            stop = int(stop) if stop else content_length - 1
             if start >= content_length:
                 # From rfc 2616 sec 14.16:
                 # "If the server receives a request (other than one
@@ -125,17 +141,25 @@ def get_ranges(headervalue, content_length):
                 # did not exist. (Normally, this means return a 200
                 # response containing the full entity)."
                 return None
+            # "If the last-byte-pos value is [...] greater than or equal to the
+            # current length of the entity-body, last-byte-pos is taken to be
+            # equal to one less than the current length"
+            stop = min(stop, content_length - 1)
             # Prevent duplicate ranges. See Issue #59
             if (start, stop + 1) not in result:
                 result.append((start, stop + 1))
         else:
-            if not stop:
+            if not stop or not _is_number(stop):
                 # See rfc quote above.
                 return None
-            # Negative subscript (last N bytes)
+            # Negative subscript (last N bytes); a suffix longer than the
+            # entity selects all of it, an empty suffix is unsatisfiable
+            length = min(int(stop), content_length)
+            if length == 0:
+                continue
             # Prevent duplicate ranges. See Issue #59
-            if (content_length - int(stop), content_length) not in result:
-                result.append((content_length - int(stop), content_length))
+            if (content_length - length, content_length) not in result:
+                result.append((content_length - length, content_length))
 
     # Can we satisfy the requested Range?
     # If we have an exceedingly high standard deviation
